@@ -30,11 +30,21 @@ def py_miter(l, r):
 
 def gen_pair(ctx, rng):
     ni = rng.choice([0, 1, 2, 2, 3, 3, 4])
-    no = rng.choice([1, 1, 2, 2, 3])
+    no = rng.choice([1, 1, 2, 2, 3, 4, 6, 7, 10, 12])
     j, _ = gen.gen_circuit(rng, max_inputs=ni, min_inputs=ni, max_gates=10, n_outputs=no, max_arity=3)
     a = realize(j)
-    mode = rng.choice(['other', 'other', 'same', 'flip', 'shape'])
-    if mode == 'same':
+    mode = rng.choice(['other', 'other', 'same', 'flip', 'shape', 'neg_one', 'neg_one'])
+    if mode == 'neg_one':
+        # the same circuit with exactly one output position complemented: the miter is True everywhere
+        b = json.loads(json.dumps(a))
+        k = rng.randrange(no)
+        lab = 'neg_of_out'
+        if any(g[0] == lab for g in b['gates']) or not b['outputs']:
+            return None
+        b['gates'].append([lab, 'NOT', [b['outputs'][k]]])
+        b['outputs'][k] = lab
+        b = realize({'gates': b['gates'], 'inputs': b['inputs'], 'outputs': b['outputs'], 'blocks': []})
+    elif mode == 'same':
         b = json.loads(json.dumps(a))
     elif mode == 'flip':
         b = json.loads(json.dumps(a))
